@@ -107,7 +107,13 @@ def infer_hint_collection_items(
     # type hints can be safely inferred from an empty collection, our only
     # recourse is to allow similar instances of this collection to contain *ALL*
     # possible items.
-    if not obj:
+    #
+    # Note that emptiness is decided by length rather than truthiness. A
+    # user-defined collection may define __bool__() independently of __len__();
+    # an empty collection that is nonetheless truthy has no first item to infer
+    # from (StopIteration under O(1) inference) and no item hints to unify
+    # (an empty union under O(n) inference).
+    if not len(obj):
         return hint_factory
     # Else, this collection is non-empty.
     #
